@@ -219,7 +219,7 @@ func synthArgs(m reflect.Method, isList bool, size int, variant int) ([]reflect.
 }
 
 func runC19(c *fw.Ctx) {
-	states := c.N(5, 200)
+	states := c.N(5, 2000)
 	// (1) every method of both interfaces, on fixtures of depth 1..3, receivers in several states
 	for _, isList := range []bool{true, false} {
 		it := objectType
